@@ -1,42 +1,50 @@
 import Tw.Model.NetSim
 import Tw.Model.Conn6
 import Tw.Model.Conn7
-import Tw.Proofs.NetSim
+import Tw.Proofs.ConnSafetyOnline
+import Tw.Proofs.ConnSafety6
+import Tw.Proofs.ConnSafety7
 import Tw.Proofs.Conn6
 import Tw.Proofs.Conn7
 
 /-!
 # C01 — vital chunks are delivered exactly once, in order, uncorrupted
 
-**Proved (online phase, both variants — the code of the online phase is shared, `Tw/Model/Conn.lean`):**
-for two endpoints that are online and an adversarial network (`Tw/Model/NetSim.lean`: the history of
-every datagram ever sent stays deliverable, so duplication / reordering / delay are "deliver any
-index at any time" and loss is "never deliver"; application calls `send`, `flush` and the connection
-layer's `resend` interleave arbitrarily on both sides), under the assumptions of the property as
-guards of the moves — H1: a vital chunk is submitted only while fewer than 512 are unacknowledged;
-H2: a datagram is delivered only while each side has submitted fewer than 256 vital chunks since it
-was sent; H3: every event iterator is drained —
+**System** (`Tw/Model/NetSim.lean`): two full connection objects (`Tw.Conn6.Conn` / `Tw.Conn7.Conn`,
+starting at `Connection::new`) and an adversarial network that keeps the monotone history of every
+datagram either side ever sent.  Moves: application calls on either side (`connect`, `send` vital /
+non-vital, `send_connless`, `flush`, `tick`, `disconnect`), `deliver to i` of *any* datagram of the
+peer's history at any time, any number of times (duplication, reordering, delay; loss = never
+delivering), clock advance.  Variants: `proto6 false` (0.6 with the DDNet token), `proto6 true` (0.6
+towards a peer that does not use the token), `proto7`.
 
-1. `online_vital_prefix_partial`: the vital payloads handed to either application are a prefix of
-   the vital payloads the other application submitted (nothing skipped, duplicated, reordered or
-   altered), across sequence-number wrap-around (no bound on the length of the run);
-2. `online_nonvital_membership_partial`: every non-vital payload handed over was submitted;
-3. `lazy_eq_eager`: for every packet, starting ack and flag, the lazy delivery iterator yields exactly
-   the chunks the eager scan accepts;
-4. `conn6_ready_only_on_accept_partial` (0.6): processing a packet yields `Ready` only if the packet
-   is the peer's `ConnectAccept` and the connection is `Connecting`; it then goes online with that
-   packet's token.
+**Assumptions** (predicates on a move in a world, `admissible` = they hold for every move of the
+schedule and every call returns): H1 `h1` — a vital chunk is submitted only while the resend queue
+holds fewer than 512 chunks; H2 `h2` — a datagram is delivered only while its ack is fewer than 1024
+behind the receiver's `sequence` and every vital sequence number it carries is fewer than 1024
+behind the sequence number the receiver waits for (both measured on the ghost absolute counters:
+`unwrap` decodes a 10-bit value against the sender's counter stamped on the datagram); H3 (the
+application drains every iterator) is built in.  H2 is tight: a chunk exactly 1024 behind is accepted
+(`h2_tight`).
 
-**Partial / open** (`C01_full`, `C01_ready_full` state the whole claims): (a) H2 is the stamp-based
-sufficient condition above rather than "no sequence number mentioned is 1024 behind"; (b) the
-schedule theorem is about the online cores (two `Online` values: the token check and the handshake
-are not part of the system; `Conn6.feed`/`Conn7.feed` hand exactly these cores the packets that carry
-the right token — C03 — but lifting the theorem through the handshake state machines is not
-proved); (c) "`Ready` at most once over a whole run" and the 0.7 counterpart of item 4 are not proved
-(the two-endpoint oracle `C01/ready-twice`, `C01/ready-before-accept` checks them on the implementation).
+**Proved, for every admissible schedule from two fresh connections, all three variants**
+(`C01_conn6`, `C01_conn7`, `C01_all`; `Safe`):
+1. the vital payloads handed to either application are a prefix of the vital payloads the other
+   application submitted — nothing skipped, duplicated, reordered or altered, across any number of
+   sequence wrap-arounds;
+2. every non-vital payload handed over was submitted non-vital by the peer;
+3. either side is told `Ready` at most once, and only after the peer has emitted its
+   `ConnectAccept` (0.6) / `Accept` (0.7) datagram;
+4. `lazy_eq_eager`: the lazy delivery iterator yields exactly the chunks the eager scan accepts, for
+   every packet, starting ack and flag.
+Also `wire_hint_consistent`: the only totalised case of the 0.6 wire model (`P6.wireRead` on a packet
+read against the token hint) is unreachable.
+
+The first-stage result about the two online cores alone (`online_*_partial`, stamp-based H2) is kept
+below; it is subsumed by the theorems above.
 -/
 namespace Tw.Props.C01
-open Tw.Conn Tw.NetSim
+open Tw.Conn Tw.NetSim Tw.NetSim.Core
 
 /-- Tie: the sequence modulus the modular arithmetic of the proofs is written for -/
 theorem tie_seqmod : seqMod = 1024 ∧ Tw.Gen.Conn.P7.SEQUENCE_MODULUS = 1024 ∧ maxNumChunks = 255 := by decide
@@ -53,6 +61,76 @@ the lazy iterator `ReceiveChunks` yields from the saved ack — for every packet
 theorem lazy_eq_eager (ack : Nat) (rr : Bool) (cs : List Chunk) :
     (eagerTrace ack rr cs).1 = receiveEager ack rr cs ∧ (eagerTrace ack rr cs).2 = receiveLazy ack cs :=
   ⟨eagerTrace_fst ack rr cs, eagerTrace_snd ack rr cs⟩
+
+/-! ## The theorem: clauses 1–3 for every admissible schedule, all variants -/
+
+/-- an admissible schedule runs to the end (no call panics, every delivered index exists) -/
+theorem admissible_runs {P : Proto} : ∀ (sched : List (Move P)) (w : World P),
+    admissible w sched = true → ∃ w', run w sched = some w' := by
+  intro sched
+  induction sched with
+  | nil => intro w _; exact ⟨w, rfl⟩
+  | cons m ms ih =>
+    intro w h
+    simp only [admissible, Bool.and_eq_true] at h
+    cases hs : step w m with
+    | none => rw [hs] at h; simp at h
+    | some w1 =>
+      rw [hs] at h
+      obtain ⟨w', hw'⟩ := ih w1 h.2
+      exact ⟨w', by simp only [NetSim.run, hs]; exact hw'⟩
+
+/-- **C01 for 0.6**, with (`tokenless = false`) and without (`tokenless = true`) the DDNet token -/
+theorem C01_conn6 (tokenless : Bool) (sched : List (Move (proto6 tokenless))) (w : World (proto6 tokenless))
+    (hadm : admissible (World.init (proto6 tokenless)) sched = true)
+    (hrun : run (World.init (proto6 tokenless)) sched = some w) : Safe w :=
+  safe_of (run_inv (P6.sim6 tokenless) sched _ w (init_inv (P6.sim6 tokenless)) hadm hrun)
+    (run_hs (P6.hs6 tokenless) sched _ w init_hs hrun)
+
+/-- **C01 for 0.7** -/
+theorem C01_conn7 (sched : List (Move proto7)) (w : World proto7)
+    (hadm : admissible (World.init proto7) sched = true) (hrun : run (World.init proto7) sched = some w) :
+    Safe w :=
+  safe_of (run_inv P7.sim7 sched _ w (init_inv P7.sim7) hadm hrun) (run_hs P7.hs7 sched _ w init_hs hrun)
+
+/-- **C01**: 0.6 with token, 0.6 without token, 0.7 -/
+theorem C01_all (P : Proto) (hP : P = proto6 false ∨ P = proto6 true ∨ P = proto7)
+    (sched : List (Move P)) (hadm : admissible (World.init P) sched = true) :
+    ∃ w, run (World.init P) sched = some w ∧ Safe w := by
+  obtain ⟨w, hw⟩ := admissible_runs sched _ hadm
+  refine ⟨w, hw, ?_⟩
+  rcases hP with rfl | rfl | rfl
+  · exact C01_conn6 false sched w hadm hw
+  · exact C01_conn6 true sched w hadm hw
+  · exact C01_conn7 sched w hadm hw
+
+/-- clause 1 spelled out: in every reachable world, both directions -/
+theorem C01_vital_prefix (P : Proto) (hP : P = proto6 false ∨ P = proto6 true ∨ P = proto7)
+    (sched : List (Move P)) (w : World P) (hadm : admissible (World.init P) sched = true)
+    (hrun : run (World.init P) sched = some w) :
+    w.b.deliveredVital <+: w.a.submittedVital ∧ w.a.deliveredVital <+: w.b.submittedVital := by
+  obtain ⟨w', hw', hs⟩ := C01_all P hP sched hadm
+  rw [hrun] at hw'; injection hw' with hw'; subst hw'
+  exact ⟨hs.vital_ab, hs.vital_ba⟩
+
+/-- the one totalised case of the 0.6 wire model is dead: in every reachable world (admissible or not)
+no datagram of the peer's history other than a close message is read against the receiver's token
+hint (`P6.misread`), so `P6.wireRead` never turns a datagram into a read error that the reader of the
+code would parse -/
+theorem wire_hint_consistent (tokenless : Bool) (sched : List (Move (proto6 tokenless)))
+    (w : World (proto6 tokenless)) (hrun : NetSim.run (World.init (proto6 tokenless)) sched = some w)
+    (to : Side) (dg : Sent Tw.Conn6.Packet) (hdg : dg ∈ (w.get to.other).out) :
+    P6.misread tokenless dg.pkt (Tw.Conn6.Conn.hint (w.get to).conn) = false := by
+  have h := run_loc (P6.loc6 tokenless) sched _ w (init_loc (P6.loc6 tokenless)) hrun
+  exact P6.misread_false (h.side to).1 ((h.side to.other).2 dg hdg)
+
+/-- H2 cannot be weakened: a chunk whose sequence number is exactly 1024 behind the one the
+receiver waits for passes the acceptance test (the 10-bit sequence space cannot tell them apart) -/
+theorem h2_tight (d : Nat) (hd : 1024 ≤ d) : (seqUpdate (d % 1024) ((d - 1024 + 1) % 1024)).2 = .current := by
+  rw [seqUpdate_snd, seqNext_eq]
+  omega
+
+/-! ## First stage: the online cores alone -/
 
 /-- **prefix theorem (online phase)**: for every admissible schedule from two fresh online endpoints,
 in both directions, what was handed over is a prefix of what was submitted -/
@@ -80,11 +158,6 @@ theorem online_counters_partial (cfg : Cfg) (hc : cfg.Ok) (ms : List Move) (s : 
 theorem online_nonvital_membership_partial (cfg : Cfg) (hc : cfg.Ok) (ms : List Move) (s : Sys)
     (h : run cfg Sys.init ms = some s) (x : Bool) : ∀ d ∈ s.nvDel (!x), d ∈ s.nvSub x :=
   (run_dir hc ms Sys.init s (Sys.init_dir cfg) h x).nvd
-
-/-- the whole claim: the same for two full connections (handshake included, tokens checked) with the
-delay assumption in its weakest form -/
-def C01_full : Prop :=
-  ∀ (cfg : Cfg) (ms : List Move) (s : Sys), run cfg Sys.init ms = some s → ∀ x, s.del (!x) <+: s.sub x
 
 /-! ## "ready" -/
 
@@ -226,13 +299,6 @@ theorem conn6_ready_only_on_accept_partial (env : Tw.Conn6.Env) (c c' : Tw.Conn6
       | unconnected => simp only [Tw.Conn6.feedBody] at h; injection h with h; injection h with _ h; rw [← h] at hr; simp at hr
       | disconnected => simp only [Tw.Conn6.feedBody] at h; injection h with h; injection h with _ h; rw [← h] at hr; simp at hr
 
-/-- the full "ready" clause: over whole runs of two full connections the connecting side sees `Ready`
-at most once, and only after the accepting side has emitted its accept datagram -/
-def C01_ready_full : Prop :=
-  ∀ (sched : List (Tw.Conn6.Env × Tw.Conn6.Op)) (c : Tw.Conn6.Conn) (outs : List Tw.Conn6.Out),
-    Tw.Conn6.run .new sched = .ok (c, outs) →
-    ((outs.map fun o => (o.events.filter (· == Event.ready)).length).foldl (· + ·) 0) ≤ 1
-
 /-! ## Non-vacuity: an admissible schedule with loss, duplication and reordering; the guards are
 decidable and the statement computes -/
 
@@ -250,5 +316,48 @@ example : (run Tw.Conn6.cfg Sys.init demo).map (fun s => (s.del false, s.sub tru
     some ([[1], [2], [3]], [[1], [2], [3]], [[9], [9]]) := by decide +kernel
 
 example : Tw.Conn6.cfg.Ok ∧ Tw.Conn7.cfg.Ok := ⟨Tw.Conn6.cfg_ok, Tw.Conn7.cfg_ok⟩
+
+
+/-! ## Non-vacuity of the main theorems: admissible schedules with handshake, loss, duplication,
+reordering, a peer-requested resend and a timer tick, in which chunks are delivered -/
+
+/-- after the handshake: three vital chunks and a non-vital one in two datagrams; the second
+datagram arrives first (twice), the receiver asks for a resend, the resent chunks arrive, then the
+delayed first datagram -/
+def traffic (P : Proto) (alt : P.Alt) (first fb : Nat) : List (Move P) :=
+  [.call .a [] (.send [1] true), .call .a [] (.send [2] true), .call .a [] .flush,
+   .call .a [] (.send [3] true), .call .a [] (.send [9] false), .call .a [] .flush,
+   .deliver .b (first + 1) [] alt, .deliver .b (first + 1) [] alt,
+   .call .b [] .flush,
+   .deliver .a fb [] alt,
+   .call .a [] .flush,
+   .deliver .b (first + 2) [] alt,
+   .deliver .b first [] alt,
+   .advance 600000, .call .b [] .tick, .deliver .a (fb + 1) [] alt,
+   .call .b [] (.send [7] true), .call .b [] .flush, .deliver .a (fb + 2) [] alt]
+
+def demo6 (tokenless : Bool) : List (Move (proto6 tokenless)) :=
+  [.call .a [] .connect, .deliver .b 0 [12345] .exact, .deliver .a 0 [] .exact, .deliver .b 0 [] .exact] ++
+  traffic (proto6 tokenless) .exact 2 1
+
+def demo7 : List (Move proto7) :=
+  [.call .a [111] .connect, .deliver .b 0 [222] (), .deliver .a 0 [] (), .deliver .b 1 [] (),
+   .deliver .a 1 [] ()] ++ traffic proto7 () 2 2
+
+/-- submitted by a / handed to b (vital, non-vital) / handed to a; `Ready` events of a -/
+def summary {P : Proto} (w : World P) : List (List Bytes) × Nat :=
+  ([w.a.submittedVital, w.b.deliveredVital, w.b.deliveredNonvital, w.a.deliveredVital], readyCount w.a.events)
+
+example : admissible (World.init (proto6 false)) (demo6 false) = true := by decide +kernel
+example : (run (World.init (proto6 false)) (demo6 false)).map summary =
+    some ([[[1], [2], [3]], [[1], [2], [3]], [[9], [9]], [[7]]], 1) := by decide +kernel
+
+example : admissible (World.init (proto6 true)) (demo6 true) = true := by decide +kernel
+example : (run (World.init (proto6 true)) (demo6 true)).map summary =
+    some ([[[1], [2], [3]], [[1], [2], [3]], [[9], [9]], [[7]]], 1) := by decide +kernel
+
+example : admissible (World.init proto7) demo7 = true := by decide +kernel
+example : (run (World.init proto7) demo7).map summary =
+    some ([[[1], [2], [3]], [[1], [2], [3]], [[9], [9]], [[7]]], 1) := by decide +kernel
 
 end Tw.Props.C01
